@@ -158,7 +158,11 @@ def run_case(case):
                     if "a" in cols or rel.is_join_identity:
                         continue
                     fixed = rel.engine.make_leaf({T("a")}, iteration.RowSequence([{T("a"): 1}]) if isinstance(rel.engine, iteration.Engine) else db.make_table("rp", [T("a")], [{T("a"): 1}]), name=f"RP{nreq}")
-                    shared = exprs.plib(["and", [["cmp", "ge", ["ref", "a"], ["lit", 0]]] + ([["cmp", "le", ["ref", some], ["lit", 9]]] if some else []), "ctor"])
+                    first = ["cmp", "ge", ["ref", "a"], ["lit", 0]]
+                    shapes = [first, ["or", [first, ["cmp", "lt", ["ref", "a"], ["lit", -9]]], "ctor"], ["not", first]]
+                    if some:
+                        shapes.append(["and", [first, ["cmp", "le", ["ref", some], ["lit", 9]]], "ctor"])
+                    shared = exprs.plib(rng.choice(shapes))
                     try:
                         rel.join(fixed, shared)
                         c["reused_predicate_first_use_ok"] = c.get("reused_predicate_first_use_ok", 0) + 1
